@@ -4,7 +4,9 @@ import (
 	"context"
 	"fmt"
 	"math/rand"
+	"os"
 	"runtime/debug"
+	"runtime/pprof"
 	"strings"
 	"testing"
 	"testing/synctest"
@@ -72,6 +74,10 @@ func InBubble(f func()) (p *bubblePanic, leaked bool) {
 		if r := recover(); r != nil {
 			msg := fmt.Sprint(r)
 			if strings.Contains(msg, "blocked goroutines remain") {
+				if os.Getenv("VERIF_DEBUG_LEAK") != "" {
+					fmt.Fprintln(os.Stderr, "LEAK:", msg)
+					pprof.Lookup("goroutine").WriteTo(os.Stderr, 1)
+				}
 				leaked = true
 				return
 			}
